@@ -168,9 +168,12 @@ def _csv(stack, tx_version, tx_in_sequence, require_minimal):
 
 
 def eval_script(stack, script, *, minimaldata=False, minimalif=False, discourage_nops=False, cltv=True, csv=True,
-                witness_v0=False, hashes=None, tx_lock_time=0, tx_in_sequence=0xFFFFFFFF, tx_version=2, tapscript=False):
-    """Run `script` (concrete bytes) on `stack` (list, mutated). Raises ScriptErr on failure."""
-    unmodelled = (OP_CHECKSIG, OP_CHECKSIGVERIFY, OP_CHECKSIGADD) if tapscript else SIG_OPS   # tapscript: CHECKMULTISIG* is a plain failure when executed
+                witness_v0=False, hashes=None, tx_lock_time=0, tx_in_sequence=0xFFFFFFFF, tx_version=2, tapscript=False, sigs=None):
+    """Run `script` (concrete bytes) on `stack` (list, mutated). Raises ScriptErr on failure.
+
+    `sigs` (pre-tapscript only) supplies what the signature opcodes need from outside the interpreter: an object with
+    sig_encoding_ok(sig), key_encoding_ok(key), check(sig, key) and the flags nullfail / nulldummy."""
+    unmodelled = (OP_CHECKSIG, OP_CHECKSIGVERIFY, OP_CHECKSIGADD) if tapscript else (() if sigs is not None else SIG_OPS)   # tapscript: CHECKMULTISIG* is a plain failure when executed
     if any(op in unmodelled for op in _opcodes(script)):
         raise NotImplementedError("signature opcodes are outside this reference")
     if not tapscript and len(script) > MAX_SCRIPT_SIZE:
@@ -419,6 +422,78 @@ def eval_script(stack, script, *, minimaldata=False, minimalif=False, discourage
                 stack.append(hashes[opcode](vch))
             elif opcode == OP_CODESEPARATOR:
                 pass
+            elif opcode in (OP_CHECKSIG, OP_CHECKSIGVERIFY) and sigs is not None and not tapscript:
+                if len(stack) < 2:
+                    _fail("invalid stack operation")
+                vch_sig, vch_key = stack[-2], stack[-1]
+                # EvalChecksigPreTapscript (FindAndDelete / CONST_SCRIPTCODE left to the caller's checker)
+                if not sigs.sig_encoding_ok(vch_sig) or not sigs.key_encoding_ok(vch_key):
+                    _fail("signature or public key encoding")
+                success = sigs.check(vch_sig, vch_key)
+                if not success and sigs.nullfail and len(vch_sig):
+                    _fail("nullfail")
+                stack.pop()
+                stack.pop()
+                stack.append(b"\x01" if success else b"")
+                if opcode == OP_CHECKSIGVERIFY:
+                    if success:
+                        stack.pop()
+                    else:
+                        _fail("checksigverify")
+            elif opcode in (OP_CHECKMULTISIG, OP_CHECKMULTISIGVERIFY) and sigs is not None and not tapscript:
+                i = 1
+                if len(stack) < i:
+                    _fail("invalid stack operation")
+                n_keys = scriptnum(stack[-i], minimaldata)
+                if n_keys < 0 or n_keys > 20:
+                    _fail("pubkey count")
+                op_count += n_keys
+                if op_count > MAX_OPS_PER_SCRIPT:
+                    _fail("op count")
+                i += 1
+                ikey = i
+                ikey2 = n_keys + 2
+                i += n_keys
+                if len(stack) < i:
+                    _fail("invalid stack operation")
+                n_sigs = scriptnum(stack[-i], minimaldata)
+                if n_sigs < 0 or n_sigs > n_keys:
+                    _fail("sig count")
+                i += 1
+                isig = i
+                i += n_sigs
+                if len(stack) < i:
+                    _fail("invalid stack operation")
+                success = True
+                while success and n_sigs > 0:
+                    vch_sig, vch_key = stack[-isig], stack[-ikey]
+                    if not sigs.sig_encoding_ok(vch_sig) or not sigs.key_encoding_ok(vch_key):
+                        _fail("signature or public key encoding")
+                    if sigs.check(vch_sig, vch_key):
+                        isig += 1
+                        n_sigs -= 1
+                    ikey += 1
+                    n_keys -= 1
+                    if n_sigs > n_keys:
+                        success = False
+                while i > 1:
+                    i -= 1
+                    if not success and sigs.nullfail and not ikey2 and len(stack[-1]):
+                        _fail("nullfail")
+                    if ikey2 > 0:
+                        ikey2 -= 1
+                    stack.pop()
+                if len(stack) < 1:
+                    _fail("invalid stack operation")
+                if sigs.nulldummy and len(stack[-1]):
+                    _fail("nulldummy")
+                stack.pop()
+                stack.append(b"\x01" if success else b"")
+                if opcode == OP_CHECKMULTISIGVERIFY:
+                    if success:
+                        stack.pop()
+                    else:
+                        _fail("checkmultisigverify")
             else:
                 _fail("bad opcode")
         if len(stack) + len(altstack) > MAX_STACK_SIZE:
